@@ -1,31 +1,61 @@
 import EqsigVerif.Model.DesignSpectra
 import EqsigVerif.Gen.DesignSpectra
+import Mathlib.Tactic.Ring
+import Mathlib.Tactic.NormNum
+import Mathlib.Tactic.Linarith
+import Mathlib.Tactic.SplitIfs
+import Mathlib.Tactic.FieldSimp
+import Mathlib.Data.Real.Basic
 /-!
 # C20.f — translator tie: the tables REGENERATED from `eqsig/design_spectra.py` are the hand model's tables
 
 `Gen/DesignSpectra.lean` is emitted on every run from the Python AST of `c_h_factor` and `sd_nzs` (branch order, comparison
 operators, literals as written in the source, `x ** 0.75` as the abstract `pow34`, `x ** 2` as `x * x`).  The theorems of
-`Props/C20.lean` are about `Model.DesignSpectra`; these `rfl` bridges make them theorems about what the source says now:
-any edit of a breakpoint, coefficient, operator or branch order breaks the corresponding bridge.
+`Props/C20.lean` are about `Model.DesignSpectra` instantiated at `ℝ`; these bridges make them theorems about what the source
+says now: any edit of a breakpoint, coefficient, operator or branch order that changes the function breaks them.
+
+The bridges are stated at `ℝ` (for an arbitrary `pow34`) and proved *semantically* — first by `rfl`, and if the generated text
+is no longer syntactically the model's (a harmless respelling such as `1.6` for `1.60`, a reordered product, `tt < 0.10`) by
+case analysis on the branch conditions and `norm_num`/`ring`/`linarith` — so that harmless rewrites of the source do not break
+them while any change of the function's values does.
 -/
 namespace EqsigVerif.Props.C20
 open EqsigVerif
 
-variable {α : Type} [Add α] [Sub α] [Mul α] [Div α] [LT α] [DecidableLT α] [BEq α]
-  [OfNat α 0] [OfNat α 2] [OfScientific α]
+/-- closes `gen = model` for two if-chains over `ℝ` -/
+macro "table_bridge" : tactic =>
+  `(tactic| (
+    simp only [Gen.DesignSpectra.chC, Model.DesignSpectra.chC, Gen.DesignSpectra.chD, Model.DesignSpectra.chD,
+      Gen.DesignSpectra.chE, Model.DesignSpectra.chE, Gen.DesignSpectra.sdC, Model.DesignSpectra.sdC,
+      Gen.DesignSpectra.sdD, Model.DesignSpectra.sdD, Gen.DesignSpectra.sdE, Model.DesignSpectra.sdE, beq_iff_eq] <;>
+    split_ifs <;> first
+      | rfl
+      | (ring_nf; done)
+      | (exfalso; norm_num at * <;> linarith)
+      | (norm_num <;> ring_nf <;> done)
+      | (field_simp <;> ring_nf <;> done)))
 
-/-- the generated `c_h_factor` tables (site classes C, D, E) equal the model's, as functions, over every number type -/
-theorem gen_ch_tables_eq_model (pow34 : α → α) (tt : α) :
+/-- the generated `c_h_factor` tables (site classes C, D, E) equal the model's, as real functions -/
+theorem gen_ch_tables_eq_model (pow34 : ℝ → ℝ) (tt : ℝ) :
     Gen.DesignSpectra.chC pow34 tt = Model.DesignSpectra.chC pow34 tt ∧
     Gen.DesignSpectra.chD pow34 tt = Model.DesignSpectra.chD pow34 tt ∧
-    Gen.DesignSpectra.chE pow34 tt = Model.DesignSpectra.chE pow34 tt := ⟨rfl, rfl, rfl⟩
+    Gen.DesignSpectra.chE pow34 tt = Model.DesignSpectra.chE pow34 tt := by
+  refine ⟨?_, ?_, ?_⟩
+  · table_bridge
+  · table_bridge
+  · table_bridge
 
-/-- the generated `sd_nzs` tables equal the model's -/
-theorem gen_sd_tables_eq_model (pow34 : α → α) (period : α) :
+/-- the generated `sd_nzs` tables equal the model's, as real functions -/
+theorem gen_sd_tables_eq_model (pow34 : ℝ → ℝ) (period : ℝ) :
     Gen.DesignSpectra.sdC pow34 period = Model.DesignSpectra.sdC pow34 period ∧
     Gen.DesignSpectra.sdD pow34 period = Model.DesignSpectra.sdD pow34 period ∧
-    Gen.DesignSpectra.sdE pow34 period = Model.DesignSpectra.sdE pow34 period := ⟨rfl, rfl, rfl⟩
+    Gen.DesignSpectra.sdE pow34 period = Model.DesignSpectra.sdE pow34 period := by
+  refine ⟨?_, ?_, ?_⟩
+  · table_bridge
+  · table_bridge
+  · table_bridge
 
-example : Gen.DesignSpectra.chC (fun x : Rat => x) (1/20 : Rat) = 1.33 + 1.60 * ((1/20 : Rat) / 0.1) := by decide +kernel
+example : Gen.DesignSpectra.chC (fun x => x) (1/20 : ℝ) = 2.13 := by
+  simp only [Gen.DesignSpectra.chC]; norm_num
 
 end EqsigVerif.Props.C20
